@@ -18,6 +18,7 @@ O = Oracle()
 
 FAILING = [
     # exceptions outside the usual TypeError / ValueError family: OverflowError (float -> int, regex repeat count), KeyError (%-formatting with a mapping key)
+    'amount' + ' + amount' * 3000, 'not ' * 3000 + 'true',
     'round(amount * 1e308 * 1e308) == 1', 'regex("A{1,4294967296}")', '"%(nosuch)s" % description == "x"',
     '(r + 1 for r in description)', '(r for r in amount)', 'amount > "x"', 'contains(5)', 'description + 1', 'amount.foo == 1', 'next(r for r in description if r == "~")',
     'min(c for c in "") > 1', 'regex_replace(description, "(", "") == ""', 'substring("a", "b") == ""', 'split(5, 0) == ""',
@@ -28,7 +29,7 @@ FAILING = [
     'all(1)', 'next(5)', 'exists(1, 2)', 'field.kind.nope == 1',
 ]
 if O.tier == 'quick':
-    FAILING = FAILING[:31]
+    FAILING = FAILING[:33]
 
 VIEW_FAILING = ['round(total * 1e308 * 1e308) > 1', 'max(sum(by(months))) > 50', 'period(months) > 1', 'sum(by(5)) > 1', 'period(1) > 1', 'sum(by("nope")) > 1', 'avg("x") > 1', 'stddev(1) > 0',
                 'max_val("a", 1) > 0', 'min_val(total, "b") > 0', 'count(5) > 0', 'sum(total) > 0', 'max(by) > 1', 'cv > "a"', 'months + "x" > 1', 'total / "2" > 1']
